@@ -16,7 +16,7 @@ FACTORS = {
     "n_max_clusters": [None, 1, 2, 3],
     "normalize": [True, False],
     "sample": ["tpcn", "rwm"],
-    "target": ["gauss", "bimodal"],
+    "target": ["gauss", "bimodal", "narrow"],
     "resample": ["mult", "syst"],
 }
 
